@@ -266,7 +266,11 @@ Qed.
 
 (* the paths an operation names; its read region is the union of their regions, it writes only those paths *)
 Definition cop_paths (o : cop) : list str :=
-  match o with CMkdir p | CRemove p | CStat p | CChmod p => [p] | CRename a b => [a; b] end.
+  match o with
+  | CMkdir p | CRemove p | CStat p | CChmod p => [p]
+  | CRename a b => [a; b]
+  | CMkdirAll p => p :: anc_list (length p) p          (* it may create every missing ancestor *)
+  end.
 Definition paths_R (ps : list str) : region := fun k => existsb (fun p => in_region p k) ps.
 Definition paths_W (ps : list str) : region := fun k => existsb (fun p => wr_region p k) ps.
 
@@ -353,6 +357,73 @@ Proof.
     + intros [[|]|c]; [exact LookNew|constructor|constructor].
 Qed.
 
+(* ---- MkdirAll ---- *)
+Lemma missing_chain_agree s s' : forall n p acc,
+  (forall k, In k (p :: anc_list n p) -> cget s k = cget s' k) ->
+  missing_chain (Datatypes.S n) s p acc = missing_chain (Datatypes.S n) s' p acc.
+Proof.
+  induction n as [|m IH]; intros p acc H.
+  - cbn [missing_chain]. destruct (str_eqb p dot); [reflexivity|].
+    rewrite (H p (or_introl eq_refl)). destruct (cget s' p) as [[|]|]; reflexivity.
+  - cbn [missing_chain]. destruct (str_eqb p dot) eqn:Dp; [reflexivity|].
+    rewrite (H p (or_introl eq_refl)). destruct (cget s' p) as [[|]|]; try reflexivity.
+    change (missing_chain (Datatypes.S m) s (path_dir p) (p :: acc) = missing_chain (Datatypes.S m) s' (path_dir p) (p :: acc)).
+    destruct (str_eqb (path_dir p) dot) eqn:Dd.
+    + cbn [missing_chain]. rewrite Dd. reflexivity.
+    + apply IH. intros k I. apply H. right. cbn [anc_list]. rewrite Dd. exact I.
+Qed.
+
+Lemma missing_chain_subset s : forall n p acc l,
+  missing_chain (Datatypes.S n) s p acc = inl l -> forall d, In d l -> In d acc \/ In d (p :: anc_list n p).
+Proof.
+  induction n as [|m IH]; intros p acc l H d I.
+  - cbn [missing_chain] in H. destruct (str_eqb p dot); [inversion H; subst; left; exact I|].
+    destruct (cget s p) as [[|]|]; inversion H; subst; [left; exact I|].
+    destruct I as [<-|I]; [right; left; reflexivity|left; exact I].
+  - cbn [missing_chain] in H. destruct (str_eqb p dot) eqn:Dp; [inversion H; subst; left; exact I|].
+    destruct (cget s p) as [[|]|]; try (inversion H; subst; left; exact I); try discriminate.
+    change (missing_chain (Datatypes.S m) s (path_dir p) (p :: acc) = inl l) in H.
+    destruct (str_eqb (path_dir p) dot) eqn:Dd.
+    + cbn [missing_chain] in H. rewrite Dd in H. inversion H; subst.
+      destruct I as [<-|I]; [right; left; reflexivity|left; exact I].
+    + destruct (IH _ _ _ H d I) as [[<-|X]|X]; [right; left; reflexivity|left; exact X|].
+      right. right. cbn [anc_list]. rewrite Dd. exact X.
+Qed.
+
+Lemma local_mk_dirs R W l : subregion W R -> (forall d, In d l -> W d = true) -> local R W (mk_dirs l).
+Proof.
+  intros WR. induction l as [|d r IH]; intros Hl; cbn [mk_dirs]; [constructor|].
+  constructor.
+  - intros s. cbn. apply IH. intros x I. apply Hl. right. exact I.
+  - intros s s' _. reflexivity.
+  - intros s s' A k K. cbn [fst]. destruct (str_eqb_spec k d) as [->|N].
+    + rewrite !cget_cset_eq. reflexivity.
+    + rewrite !cget_cset_neq by exact N. apply A. apply WR. exact K.
+  - intros s k K. cbn [fst]. rewrite cget_cset_neq; [reflexivity|].
+    intros ->. rewrite (Hl d (or_introl eq_refl)) in K. discriminate.
+Qed.
+
+Lemma local_mkdirall p :
+  local (paths_R (p :: anc_list (length p) p)) (paths_W (p :: anc_list (length p) p)) (p_mkdirall p).
+Proof.
+  set (ks := p :: anc_list (length p) p).
+  assert (WR : subregion (paths_W ks) (paths_R ks)) by apply paths_W_sub_R.
+  assert (Wk : forall k, In k ks -> paths_W ks k = true).
+  { intros k I. eapply paths_W_in; [exact I|]. unfold wr_region. apply str_eqb_refl. }
+  assert (Rk : forall k, In k ks -> paths_R ks k = true) by (intros k I; apply WR; apply Wk; exact I).
+  assert (Cont : forall s, local (paths_R ks) (paths_W ks)
+            (match missing_chain (Datatypes.S (length p)) s p [] with inr c => CDone (CErr c) | inl l => mk_dirs l end)).
+  { intros s. destruct (missing_chain (Datatypes.S (length p)) s p []) as [l|c] eqn:M; [|constructor].
+    apply local_mk_dirs; [exact WR|]. intros d I. apply Wk.
+    destruct (missing_chain_subset s _ _ _ _ M d I) as [[]|X]. exact X. }
+  unfold p_mkdirall. constructor.
+  - intros s. cbn [snd]. apply Cont.
+  - intros s s' A. cbn [snd].
+    rewrite (missing_chain_agree s s' (length p) p []); [reflexivity|]. intros k I. apply A. apply Rk. exact I.
+  - intros s s' A k K. cbn [fst]. apply A. apply WR. exact K.
+  - intros s. cbn [fst]. apply same_outside_refl.
+Qed.
+
 Lemma local_prog_of o : local (paths_R (cop_paths o)) (paths_W (cop_paths o)) (prog_of o).
 Proof.
   destruct o; cbn [prog_of cop_paths].
@@ -361,6 +432,7 @@ Proof.
   - apply local_single, local_stat.
   - apply local_single, local_chmod.
   - apply local_rename.
+  - apply local_mkdirall.
 Qed.
 
 (* ---------- goroutines ---------- *)
